@@ -356,6 +356,54 @@ def _exec(stmts, env, repo, module):
             raise AnalysisError(f"{module.relpath}:{s.lineno}: statement not modelled in _packet_id: {norm_text(s)[:60]}")
 
 
+def _packet_slot_limit(ctx, hm):
+    enc = hm.get_class("HeaderEncoder").methods.get("encode")
+    st = ctx.repo.try_fold(hm, hm.get_const_expr("_STRUCT"))
+    if enc is None or st is None:
+        return None
+    for c in ast.walk(enc):
+        if isinstance(c, ast.Call) and (dotted(c.func) or "").endswith("_STRUCT.pack"):
+            for i, a in enumerate(c.args):
+                if dotted(a) and dotted(a).endswith(".packet_id") and i < len(st.slots):
+                    return 256 ** st.slots[i].size, st.slots[i].size
+    return None
+
+
+def _packet_id_from_iterator(ctx, R, gen, m, hm, ci, init) -> bool:
+    """Second accepted idiom for the packet counter: `next(self.<it>)` with `self.<it> = itertools.cycle(<constant sequence>)`
+    set in __init__ - the values handed out are exactly that sequence, repeated."""
+    cfm = ci.methods.get("create_from_message")
+    if cfm is None:
+        return False
+    src = None
+    for c in ast.walk(cfm):
+        if isinstance(c, ast.Call):
+            for k in c.keywords:
+                if k.arg == "packet_id" and isinstance(k.value, ast.Call) and dotted(k.value.func) == "next" and len(k.value.args) == 1 and (dotted(k.value.args[0]) or "").startswith("self."):
+                    src = dotted(k.value.args[0])
+    if src is None:
+        return False
+    ctx.fn(m, "HeaderFactory.create_from_message")
+    seq = None
+    stores = [x for x in ast.walk(ci.node) if isinstance(x, (ast.Assign, ast.AnnAssign)) and any(dotted(t) == src for t in (x.targets if isinstance(x, ast.Assign) else [x.target]))]
+    if len(stores) == 1 and any(stores[0] is x for x in ast.walk(init)):
+        v = stores[0].value
+        if isinstance(v, ast.Call) and ctx.repo.qual(m, v.func) == "itertools.cycle" and len(v.args) == 1:
+            try:
+                seq = ctx.repo._fold_iter(m, v.args[0], None, 0)
+            except Exception:
+                seq = None
+    lim = _packet_slot_limit(ctx, hm)
+    ctx.require(lim is not None, f"{hm.relpath}: header.packet_id is not an argument of _STRUCT.pack")
+    limit, size = lim
+    if seq is None:
+        raise AnalysisError(f"{m.relpath}: packet ids come from next({src}) but {src} is not `itertools.cycle(<constant sequence>)` assigned once in __init__")
+    bad = sorted(x for x in set(seq) if not isinstance(x, int) or isinstance(x, bool) or x < 0 or x >= limit)
+    ctx.check(not bad, R, f"{gen}:HeaderFactory._packet_id:range", m, cfm, f"every returned id fits the {size}-byte packet_id slot [0,{limit - 1}]", f"the cycled sequence contains {bad[:3]}" if bad else f"{len(seq)} values")
+    ctx.check(list(seq) == list(range(limit)), R, f"{gen}:HeaderFactory._packet_id:sequence", m, cfm, f"ids are handed out as 0, 1, ..., {limit - 1} and then start again", f"cycle of {len(seq)} values starting {list(seq)[:4]}")
+    return True
+
+
 def r6(ctx):
     """Finite-set abstract interpretation of HeaderFactory._packet_id: the set of counter values reachable from the
     initial value is computed by applying the method's own arithmetic (evaluated by this checker over the AST, the
@@ -365,9 +413,11 @@ def r6(ctx):
         m = ctx.repo.module(f"pyairtouch.{gen}.comms.registry")
         hm = ctx.repo.module(f"pyairtouch.{gen}.comms.hdr")
         ci = m.get_class("HeaderFactory")
-        ctx.fn(m, "HeaderFactory._packet_id")
         fn = ci.methods.get("_packet_id")
         init = ci.methods.get("__init__")
+        if fn is None and init is not None and _packet_id_from_iterator(ctx, R, gen, m, hm, ci, init):
+            continue
+        ctx.fn(m, "HeaderFactory._packet_id")
         ctx.require(fn is not None and init is not None, f"{m.relpath}: HeaderFactory._packet_id/__init__ vanished")
         # slot size of packet_id in the header struct (position of header.packet_id among pack() arguments)
         enc = hm.get_class("HeaderEncoder").methods.get("encode")
